@@ -393,6 +393,8 @@ pub struct World {
     /// WHOAREYOU packets the local node has sent and that are not answered/expired: (peer, cd bytes, nonce, sent at)
     ttl_ms: u64,
     last_touch: BTreeMap<u64, u64>,
+    /// sequence number of the record the application last supplied for a peer (who-are-you answer)
+    known_seq: BTreeMap<(usize, SocketAddr), u64>,
     out_challenges: Vec<(usize, Vec<u8>, MessageNonce, u64, SocketAddr)>,
     /// challenges whose timer has certainly run out (the live ledger over-approximates)
     expired_challenges: Vec<(usize, Vec<u8>, MessageNonce, u64, SocketAddr)>,
@@ -488,6 +490,7 @@ impl World {
             reqs: vec![],
             ttl_ms: 86_400_000,
             last_touch: BTreeMap::new(),
+            known_seq: BTreeMap::new(),
             out_challenges: vec![],
             expired_challenges: vec![],
             consumed_cds: BTreeSet::new(),
@@ -1247,9 +1250,23 @@ impl Runner {
         let na = (self.w.it.id(&wref.0.node_id), self.w.it.addr(&wref.0.socket_addr));
         let n = self.w.it.nonce(&whoareyou_ref_nonce(&wref));
         let ae = enr.as_ref().map(|e| self.w.it.enr(e));
+        let answered_with = enr.as_ref().map(|e| e.seq());
+        let wru_addr = wref.0.socket_addr;
         let _ = self.vh.to_handler.send(HandlerIn::WhoAreYou(wref, enr));
         settle().await;
         self.close_step(format!("EvWhoAreYou ({}, {}) {} {}", na.0, na.1, coq_nonce(&n), coq_oenr(&ae))).await;
+        // the answer counts only if it made the handler send a WHOAREYOU (a second answer while a
+        // challenge is outstanding is ignored)
+        if self.steps.last().map(|s| s.wires.iter().any(|(_, p)| matches!(p, APkt::Who { .. }))).unwrap_or(false) {
+            match answered_with {
+                Some(q) => {
+                    self.w.known_seq.insert((pi, wru_addr), q);
+                }
+                None => {
+                    self.w.known_seq.remove(&(pi, wru_addr));
+                }
+            }
+        }
     }
 
     async fn app_respond(&mut self, rng: &mut Rng, idx: usize, multi: u8) {
@@ -1516,6 +1533,15 @@ impl Runner {
             return;
         }
         self.inject(src, bytes, if late { "late-handshake" } else { "handshake" }, signer, tampered, forged).await;
+        // C12: the record reported with the session a handshake establishes is never older than the one
+        // the application supplied for that node with its who-are-you answer (the service would write
+        // it over the stored record)
+        if let Some(k) = self.w.known_seq.get(&(pi, ch_addr)).cloned() {
+            let older = self.steps[n_late..].iter().any(|s| s.outs.iter().any(|o| matches!(o, AOut::Established(e, _, _) if e.seq < k)));
+            if older {
+                self.w.failures.push(("C12".into(), "a handshake established a session that was reported with an older record than the one the application had supplied for that node".into()));
+            }
+        }
         if late {
             // C03: answering after the challenge expired never creates or re-keys a session
             let acted = self.steps[n_late..].iter().any(|s| s.outs.iter().any(|o| matches!(o, AOut::Established(..) | AOut::Unverifiable(..) | AOut::Request(..) | AOut::Response(..))));
@@ -1649,6 +1675,9 @@ impl Runner {
             // (a Timeout failure is the work of a timer that fired in the gap before the datagram)
             if acted {
                 self.w.failures.push(("C03".into(), "a WHOAREYOU from another address than the one the request was sent to was acted on".into()));
+                if self.steps[n0..].iter().any(|s| s.outs.iter().any(|o| matches!(o, AOut::Established(..)))) {
+                    self.w.failures.push(("C12".into(), "a node was reported as established because of a packet that did not come from the address its record advertises".into()));
+                }
             }
         }
     }
